@@ -156,6 +156,7 @@ D_Null == {"plain_part_null"}
 D_Stall == {"undef_part_stall"}
 D_Pass == {"reloc_plain_passthrough"}
 D_Dup == {"dup_in_record_unnoticed"}
+D_Oob == {"patch_outside_unchecked"}
 D_All  == Devs
 R_Abs  == {FALSE}
 R_Both == BOOLEAN
